@@ -350,8 +350,11 @@ def r1_r2_r5(run: Run, rt):
                                 loc=cp.loc(r))
                         continue
                     if mode is None:
-                        run.bad('C16.R1', f'{h}/{"positive" if sign == "pos" else "negative"} numbers', 'not-rounded',
-                                f'{h} returns `{ast.unparse(r.value)[:60]}` without any rounding primitive on the way', loc=cp.loc(r))
+                        # an unrounded return: wrong when it ignores the digit count (reported by R5); when the path is conditioned
+                        # on the digit count (e.g. a whole number and digits >= 0) this classification cannot decide it
+                        if digits in dep:
+                            raise AnalysisError('C16.R1', f'{h} returns `{ast.unparse(r.value)[:40]}` unrounded on a path conditioned on '
+                                                          f'`{digits}`: whether the value is already at that precision is not decidable here')
                         continue
                     if mode == required:
                         run.ok('C16.R1', construct, f'{mode}', loc=cp.loc(r))
